@@ -10,7 +10,7 @@ open Just Just.Syntax
 `parse_value` directly, where `if` is no keyword), an `assert`, a parenthesised expression -/
 def WFValue : Expr → Prop
   | .var n => n ≠ "assert"
-  | .call n args => n ≠ "assert" ∧ WFs args
+  | .call n args => n ≠ "assert" ∧ fnOk n args.length = true ∧ WFs args
   | .str _ => True
   | .backtick _ => True
   | .assert a _ b m => WF a ∧ WF b ∧ WF m
@@ -45,9 +45,9 @@ theorem parseValue_rt (d : Expr) (hw : WFValue d) (fuel : Nat) (rest : List Tk) 
     simp only [Expr.size] at hf
     obtain ⟨f', rfl⟩ : ∃ f', fuel = f' + 1 := ⟨fuel - 1, by omega⟩
     simp only [WFValue] at hw
-    have hargs := roundtripArgs_core args hw.2 f' rest (by omega)
+    have hargs := roundtripArgs_core args hw.2.2 f' rest (by omega)
     simp only [printE, List.append_assoc, List.cons_append, List.nil_append, List.singleton_append] at hargs ⊢
-    exact parseValue_call_ok hw.1 hargs
+    exact parseValue_call_ok hw.1 hw.2.1 hargs
   | str s => exact hgen (by simp [WF]) (by simp [level])
   | backtick s => exact hgen (by simp [WF]) (by simp [level])
   | assert a o b m => simp only [WFValue] at hw; exact hgen (by simp only [WF]; exact hw) (by simp [level])
